@@ -159,13 +159,12 @@ func (db *DB) CreateTable(opts *TableOpts) error {
 				return rsErr
 			}
 
-			// Don't bother looking further back than table's retention period
-			offsetByRetentionPeriod := wal.NewOffsetForTS(t.truncateBefore())
-			offsetsBySource = offsetsBySource.LimitAge(offsetByRetentionPeriod)
-
-			// Don't bother looking further back than table's backfill depth
-			offsetByBackfillDepth := wal.NewOffsetForTS(t.backfillTo())
-			offsetsBySource = offsetsBySource.LimitAge(offsetByBackfillDepth)
+			// Note - persisted offsets are used as they are. They used to be moved
+			// forward to "now - retention" (and "now - backfill"), but an offset only
+			// carries the creation time of its WAL segment, and a segment that is
+			// older than that can still hold entries that were written (and
+			// acknowledged) a moment ago. Skipping it lost those inserts on restart.
+			// Entries that really are too old are ignored one by one on insert.
 
 			t.log.Debugf("Starting at WAL offsets %v", offsetsBySource)
 
